@@ -2,6 +2,20 @@
 import gen_prog, sweep, pyast
 
 
+# programs whose un-annotated output still needs names the generator imports for types (typing.NewType for a type alias;
+# Optional/Union/Tuple in the set-up annotation of definitions fed by statement-form if/match/handle)
+TEMPLATES = [
+    "class Account(def balance: Int)\n    def deposit(self, amount: Int) -> Int => self.balance + amount\ntype Solvent: Account when self.balance >= 0\nprint(Account(5).deposit(1))\n",
+    "def limit: Int := 10\ndef size := if limit > 5 then\n    limit\nelse\n    \"none\"\nprint(size)\n",
+    "def limit: Int := 10\ndef size: Int? := if limit > 5 then\n    limit\nelse\n    None\nprint(1)\n",
+    "def limit: Int := 3\ndef pair := match limit\n    3 =>\n        (1, \"a\")\n    _ =>\n        (2, \"b\")\nprint(limit)\n",
+    "class E(def m: Str): Exception(m)\ndef g(x: Int) -> Int raise [E] =>\n    if x > 0 then raise E(\"b\")\n    x\ndef h := g(1) handle\n    err: E =>\n        print(0)\n        0\nprint(h)\n",
+    "type Shape\n    def area(fin self) -> Int\nclass Sq(def s: Int): Shape\n    def area(fin self) -> Int => self.s * self.s\nprint(Sq(3).area())\n",
+    "def root := sqrt 16.0\nprint(root)\ndef f(a: Int?) -> Int? => a\nprint(1)\n",
+    "def fn: Int -> Int := \\x: Int => x + 1\nprint(fn(2))\n",
+]
+
+
 def run(chk):
     thorough = chk.tier == "thorough"
     ok = chk.build_harness()
@@ -12,7 +26,7 @@ def run(chk):
             chk.leanchecker(["MambaVerif.Props.C11"])
     if not ok:
         return
-    texts = gen_prog.programs(chk, 400 if thorough else 60) + [f["input"] for f in chk.findings if f.get("input")]
+    texts = TEMPLATES + gen_prog.programs(chk, 400 if thorough else 60) + [f["input"] for f in chk.findings if f.get("input")]
     res = sweep.transpile(chk, texts)
     n_acc = n_rej = 0
     distinct = set()
@@ -36,11 +50,31 @@ def run(chk):
             elif len(chk.violations) < 5:
                 chk.violation("input", why, case={"kind": "prog", "text": t}, expected=r[0][1][:3000] if r[0][0] == "ok" else str(r[0])[:500],
                               actual=r[1][1][:3000] if r[1][0] == "ok" else str(r[1])[:500])
+    # behaviour: the two outputs of an accepted program run alike (what the erased comparison cannot see: an import or a
+    # definition that is only dropped or added in one mode)
+    both = [(t, r) for t, r in zip(texts, res) if r[0][0] == "ok" and r[1][0] == "ok"]
+    both = both[:len(TEMPLATES)] + (both[len(TEMPLATES):] if thorough else rng_sample(chk, both[len(TEMPLATES):], 40))
+    runs_off = sweep.run_python([r[0][1] for _, r in both])
+    runs_on = sweep.run_python([r[1][1] for _, r in both])
+    n_run = 0
+    for (t, r), a, b in zip(both, runs_off, runs_on):
+        n_run += 1
+        if a != b:
+            f = chk.known(t)
+            why = "the two outputs behave differently under CPython: off %s / %s, on %s / %s" % (a[0][:6], a[1], b[0][:6], b[1])
+            if f:
+                chk.report_known(f, why)
+            elif len(chk.violations) < 5:
+                chk.violation("input", why, case={"kind": "prog", "text": t}, expected=r[1][1][:3000], actual=r[0][1][:3000])
     chk.sample({"program": texts[-1][:300]})
     chk.cov["correspondence"] = {"model": "MV.convFun / varDefTy / funArgTy (Model/Annotate.lean)", "tie": "translator: every read of the option in src/generate is one of the modelled guards; retDecision regenerated", "read_sites": chk.cov["tables"].get("AnnotateTables", {}).get("sites")}
     chk.cov["oracle"] = {"spec": "same verdict; same Python AST after erasing variable/parameter/return annotations and typing imports",
-                         "programs": len(texts), "accepted": n_acc, "rejected": n_rej, "outputs_differing_in_annotations": len(distinct)}
+                         "programs": len(texts), "accepted": n_acc, "rejected": n_rej, "outputs_differing_in_annotations": len(distinct), "pairs_executed": n_run}
     chk.cov["evaluations"] = len(texts)
     chk.cov["distinct_nontrivial"] = len(distinct)
     chk.cov["rule"] = "distinct accepted programs whose two outputs differ textually (i.e. the option did add annotations); programs = repository samples + G-prog"
     chk.cov["not_proved"] = "the model covers convert_def's consumption of the option; that no other conversion code depends on it is checked syntactically by the translator (it refuses unknown reads) and end-to-end by the oracle"
+
+
+def rng_sample(chk, xs, n):
+    return chk.rng.sample(xs, min(n, len(xs)))
